@@ -182,7 +182,8 @@ void disasm_range_4004(
 {
   char instruction[128];
   int cycles_min = 0, cycles_max = 0;
-  uint16_t opcode;
+  char temp[32];
+  int count;
 
   printf("\n");
 
@@ -191,7 +192,7 @@ void disasm_range_4004(
 
   while (start <= end)
   {
-    disasm_4004(
+    count = disasm_4004(
       memory,
       start,
       instruction,
@@ -200,9 +201,16 @@ void disasm_range_4004(
       &cycles_min,
       &cycles_max);
 
-    opcode = memory->read16(start);
+    snprintf(temp, sizeof(temp), "%02x", memory->read8(start));
 
-    printf("0x%04x: 0x%04x %-40s ", start / 2, opcode, instruction);
+    if (count == 2)
+    {
+      char temp2[4];
+      snprintf(temp2, sizeof(temp2), " %02x", memory->read8(start + 1));
+      strcat(temp, temp2);
+    }
+
+    printf("0x%04x: %-6s %-40s ", start, temp, instruction);
 
     if (cycles_min == 0)
     {
@@ -218,7 +226,7 @@ void disasm_range_4004(
       printf("%d-%d\n", cycles_min, cycles_max);
     }
 
-    start = start + 2;
+    start = start + count;
   }
 }
 
